@@ -63,6 +63,38 @@ pub fn cluster_check(property: &str, tier: &str) -> Option<Check> {
                 max_depth: if quick { 8 } else { 12 },
                 max_devs: if quick { 2 } else { 3 },
             });
+            // even-sized clusters: a majority of 4 is 3, of 2 is 2 (off-by-one in a quorum
+            // computation does not show with 3 or 5 voters)
+            {
+                let mut four = three.clone();
+                four.voters = vec![1, 2, 3, 4];
+                let mut m4 = menu.clone();
+                m4.max_crashes = 0;
+                m4.stops = false;
+                m4.crashes = vec![];
+                m4.mid_turn_timers = false;
+                m4.max_writes = 0;
+                m4.max_heartbeats = 0;
+                m4.vote_answers = vec![VoteAns::Deliver, VoteAns::Lose];
+                runs.push(RunSpec {
+                    name: "4v-from-boot".into(),
+                    opts: four,
+                    menu: m4.clone(),
+                    prefix: vec![],
+                    max_depth: if quick { 10 } else { 13 },
+                    max_devs: if quick { 4 } else { 5 },
+                });
+                let mut two = three.clone();
+                two.voters = vec![1, 2];
+                runs.push(RunSpec {
+                    name: "2v-from-boot".into(),
+                    opts: two,
+                    menu: m4,
+                    prefix: vec![],
+                    max_depth: if quick { 8 } else { 12 },
+                    max_devs: if quick { 3 } else { 4 },
+                });
+            }
             if !quick {
                 let mut five = three.clone();
                 five.voters = vec![1, 2, 3, 4, 5];
@@ -157,6 +189,11 @@ pub fn cluster_check(property: &str, tier: &str) -> Option<Check> {
                         (put("a", "p1"), Op::Cas("a".into(), Some("p1".into()), "p2".into())),
                         (Op::Cas("a".into(), None, "p3".into()), put("b", "p4")),
                     ];
+                    menu.mixed = vec![
+                        (put("a", "m1"), "a".to_string()),
+                        (Op::Cas("a".into(), Some("zz".into()), "m2".into()), "a".to_string()),
+                        (Op::Cas("a".into(), Some("nope".into()), "m3".into()), "a".to_string()),
+                    ];
                     menu.max_writes = 3;
                     menu.breaks = false;
                 }
@@ -178,7 +215,7 @@ pub fn cluster_check(property: &str, tier: &str) -> Option<Check> {
                     opts: opts.clone(),
                     menu: menu.clone(),
                     prefix: elect(1, &[1, 2, 3]),
-                    max_depth: if quick { 8 } else { 12 },
+                    max_depth: if quick { if property == "C29" || property == "C14" { 7 } else { 8 } } else { 12 },
                     max_devs: if quick { 2 } else { 3 },
                 },
                 RunSpec {
@@ -199,6 +236,36 @@ pub fn cluster_check(property: &str, tier: &str) -> Option<Check> {
                 },
             ];
             let _ = l13;
+            let mut runs = runs;
+            // ---- a new leader (node 2, term 3) whose log holds an UNCOMMITTED entry of the
+            //      previous term below its own no-op; per-request cap 1, node 3 lags behind
+            //      (the "Figure 8" situation: old-term entries must not be committed by counting)
+            let mut o1 = opts.clone();
+            o1.cap = 1;
+            if let Some(p) = build_prefix(&o1, |s| {
+                s.elect(1).drain_all();
+                s.ev(Event::ClientWrite(1, put("x", "old")));
+                // the write reaches node 2 only; its acknowledgement is never delivered
+                let l = s.links().into_iter().find(|(l, n, _, dead)| l.from == 1 && l.to == 2 && *n > 0 && !*dead).map(|x| x.0);
+                let Some(l) = l else { return false };
+                s.ev(Event::Deliver(l, 1));
+                s.elect(2);
+                s.view(2).map(|v| v.role == crate::simkit::cluster::RoleKind::Leader && v.term == 3).unwrap_or(false)
+            }) {
+                let mut m = menu.clone();
+                m.max_writes = 1;
+                m.max_heartbeats = 1;
+                m.crashes = vec![];
+                m.max_crashes = 0;
+                runs.push(RunSpec {
+                    name: "3v-new-leader-holds-uncommitted-old-term-entry-cap1".into(),
+                    opts: o1,
+                    menu: m,
+                    prefix: p,
+                    max_depth: if quick { 9 } else { 12 },
+                    max_devs: if quick { 1 } else { 2 },
+                });
+            }
             Some(Check { runs, budget_s: if quick { 50 } else { 1200 } })
         }
         "C03" | "C26" | "C27" | "C28" => Some(membership_check(property, quick)),
